@@ -17,7 +17,7 @@ From Coq Require Import ZArith List Bool.
 From Tickit Require Import Csi VT XtermDefs XtermSpec XtermProofs.
 From Tickit Require Import RectDefs WinRectSet WinDefs WinSpec WinHist
   WinExposeProofs WinLogDisjoint WinFlushProofs WinScreenInv WinPreserve WinTermResize WinHistory WinC01Extra
-  WinRectSetProofs WinScrollDesc WinScrollRegion WinScrollFold WinScrollSpec WinScrollOps WinScrollInv WinHistoryFull WinReDefs WinReProofs WinReFlags WinReEstablish WinReExample WinReForest WinScrollXterm WinScrollXtermHist.
+  WinRectSetProofs WinScrollDesc WinScrollRegion WinScrollFold WinScrollSpec WinScrollOps WinScrollInv WinHistoryFull WinReDefs WinReProofs WinReFlags WinReEstablish WinReExample WinReForest WinScrollXterm WinScrollXtermHist WinReFlush WinReFlushProofs WinReFlushSim.
 From Tickit Require RBDefs RBSpec RBFlushDefs RBTermSim.
 From Tickit Require Import WinRBView WinEndToEnd WinEndToEndFinal.
 From Tickit Require WinInput WinInputProofs.
@@ -325,6 +325,46 @@ Theorem C01_reentrant_flush : forall app progs racts st tm st' tm' lg,
   ScreenInv app st' tm' /\ ids_unique (r_tree st') /\ WinInputProofs.ids_unique st'.
 Proof. exact (@WinReEstablish.flush_re_establishes). Qed.
 Print Assumptions C01_reentrant_flush.
+
+(* ---- handlers that FLUSH THE ROOT or CHANGE A GEOMETRY while the flush runs (WinReFlush.v) ----
+   [RFlush]: a nested tickit_window_flush(root) -- a complete flush with a render buffer of its
+   own, sent to the terminal at once; [RGeom id r ex]: tickit_window_set_geometry (and the
+   application's exposes of old and new area).  Because a nested flush applies queued restacks
+   under the running traversal, [do_expose2] looks everything up in the CURRENT state (child
+   list copied when the loop over a window starts, a child's rectangle read when it is reached
+   and again for the mask), on fuel [efuel] = 64.  [old_only racts2]: every call is one of the
+   earlier kinds; [proj_acts]: those calls. *)
+
+(* with no calls the new flush is the plain one (log included) *)
+Theorem C01_nested_pure : forall cfg hnd st tm,
+  WinInputProofs.ids_unique st -> (WinInputProofs.height (r_tree st) <= efuel)%nat ->
+  win_flush2 cfg (re_handler2 cfg hnd (fun _ => [])) st tm = win_flush cfg hnd st tm.
+Proof. exact flush2_pure. Qed.
+Print Assumptions C01_nested_pure.
+
+(* conservative extension: with calls of the earlier kinds only (expose, show, hide, restack, close,
+   destroy) it is win_flush_re -- so C01_reentrant_flags / C01_reentrant_flush are about it too *)
+Theorem C01_nested_conservative : forall cfg hnd racts2 st tm,
+  old_only racts2 -> WinInputProofs.ids_unique st -> (WinInputProofs.height (r_tree st) <= efuel)%nat ->
+  win_flush2 cfg (re_handler2 cfg hnd racts2) st tm =
+  win_flush_re cfg (re_handler cfg hnd (fun id => proj_acts (racts2 id))) st tm.
+Proof. exact flush2_conservative. Qed.
+Print Assumptions C01_nested_conservative.
+
+(* the flag invariant survives ARBITRARY calls, nested flushes and geometry changes included *)
+Theorem C01_nested_flags : forall cfg hnd racts st tm st' tm' lg,
+  FlagInv st ->
+  win_flush2 cfg (re_handler2 cfg hnd racts) st tm = (st', tm', lg) ->
+  FlagInv st'.
+Proof. exact flush2_flaginv. Qed.
+Print Assumptions C01_nested_flags.
+
+(* and so does the uniqueness of ids over the tree and the detached subtrees *)
+Theorem C01_nested_unique : forall cfg hnd racts st tm,
+  WinInputProofs.ids_unique st ->
+  WinInputProofs.ids_unique (fst (fst (win_flush2 cfg (re_handler2 cfg hnd racts) st tm))).
+Proof. exact flush2_unique. Qed.
+Print Assumptions C01_nested_unique.
 
 (* uniqueness of window ids over the tree and the detached subtrees is an invariant of the
    history model -- every operation of the alphabet, every defect configuration, handlers
